@@ -158,7 +158,27 @@ func (s *session) applyFault(line, class string, echo bool) bool {
 		os.Exit(0)
 	case "error":
 		s.event(line, class, "fault:error")
-		if echo {
+		if b := s.bannerAt(); echo && b != nil && s.spec.Type == "ios" && s.reload == "pending" && b.Kind != "aborted" {
+			// The refusal of a command whose echo is garbled by a
+			// reload banner.
+			bt := bannerText(b.Kind, b.HH)
+			switch {
+			case b.Form == "after-own-prompt":
+				s.w("%s", line)
+				s.writeChunked(bt+"\r\n"+s.prompt(), b.Chunk)
+				s.w("\r\n")
+			case b.Form == "after-line-no-prompt":
+				s.w("%s\r\n", line)
+				s.writeChunked(bt, b.Chunk)
+			case b.Form == "before-own-prompt":
+				s.writeChunked(bt+"\r\n"+s.prompt(), b.Chunk)
+				s.w("%s\r\n", line)
+			default:
+				s.w("%s", line[:len(line)/2])
+				s.writeChunked(bt, b.Chunk)
+				s.w("%s\r\n", line[len(line)/2:])
+			}
+		} else if echo {
 			s.w("%s\r\n", line)
 		}
 		text := f.Text
